@@ -3,6 +3,8 @@ import re
 import numpy as np
 from .. import cases
 
+COQCHK = 'C18'   # Reals-only cone (no Coquelicot): coqchk -o takes under a minute (thorough tier)
+
 HDR = '''From Coq Require Import List ZArith Bool PrimFloat Uint63.
 From Cop Require Import Model.RootFind.
 {imports}
